@@ -43,6 +43,7 @@ type slotSummaryKey struct {
 }
 
 type slotAnalyzer struct {
+	locks   map[*ssa.Function]*lockInfo
 	p       *Prog
 	memo    map[slotSummaryKey][]slotSrc
 	partial map[slotSummaryKey][]slotSrc
@@ -187,11 +188,24 @@ func (a *slotAnalyzer) summary(fn *ssa.Function, k int) []slotSrc {
 func (a *slotAnalyzer) elemWrites(fn *ssa.Function, sv ssa.Value) []slotSrc {
 	var out []slotSrc
 	isSV := func(v ssa.Value) bool { return slotBaseIs(v, sv) }
+	_, svIsSlice := sv.Type().Underlying().(*types.Slice)
 	eachInstr(fn, func(b *ssa.BasicBlock, in ssa.Instruction) {
 		switch x := in.(type) {
 		case *ssa.Store:
 			// find the IndexAddr on sv at the root of the store address
 			steps := addrChain(x.Addr)
+			if !svIsSlice {
+				// sv is a shared object (pointer / struct): the store is private if some element
+				// selection on the way from sv to the stored-to location uses a private index
+				if root := rootOfChain(steps); root == nil || !(root == sv || slotBaseIs(root, sv)) {
+					return
+				}
+				if a.lockHeldAt(fn, x) {
+					return // the object's own guarded update
+				}
+				out = append(out, a.chainSources(fn, steps, x.Pos(), "")...)
+				return
+			}
 			for _, s := range steps {
 				ia, ok := s.Val.(*ssa.IndexAddr)
 				if !ok || !isSV(ia.X) {
@@ -223,6 +237,14 @@ func (a *slotAnalyzer) elemWrites(fn *ssa.Function, sv ssa.Value) []slotSrc {
 			}
 			for i, arg := range x.Common().Args {
 				if !isSV(arg) {
+					// a pointer (or a struct value with reference fields) derived from the shared
+					// object: what the callee writes through it lies wherever the derivation points
+					if !svIsSlice && arg != sv && refLike(arg.Type()) {
+						steps := addrChain(arg)
+						if root := rootOfChain(steps); root != nil && (root == sv || slotBaseIs(root, sv)) && len(a.summary(callee, i)) > 0 {
+							out = append(out, a.chainSources(fn, steps, x.Pos(), " (written by "+FuncName(callee)+")")...)
+						}
+					}
 					continue
 				}
 				for _, src := range a.summary(callee, i) {
@@ -263,6 +285,69 @@ func (a *slotAnalyzer) elemWrites(fn *ssa.Function, sv ssa.Value) []slotSrc {
 		}
 	}
 	return uniq
+}
+
+// lockHeldAt: some mutex is in the must-hold set of fn at instruction in.
+func (a *slotAnalyzer) lockHeldAt(fn *ssa.Function, in ssa.Instruction) bool {
+	if a.locks == nil {
+		a.locks = map[*ssa.Function]*lockInfo{}
+	}
+	li, ok := a.locks[fn]
+	if !ok {
+		hasLock := false
+		eachInstr(fn, func(_ *ssa.BasicBlock, x ssa.Instruction) {
+			if c, ok := x.(ssa.CallInstruction); ok {
+				if _, _, ok := mutexCall(c); ok {
+					hasLock = true
+				}
+			}
+		})
+		if hasLock {
+			li = analyseLocks(fn, lockState{}, func(x ssa.Instruction) bool { _, ok := x.(*ssa.Store); return ok })
+		}
+		a.locks[fn] = li
+	}
+	return li != nil && len(li.at[in]) > 0
+}
+
+// chainSources: for an address chain rooted at the shared object, the index sources of the first
+// element selection whose index depends only on the function's parameters / captured variables
+// (a candidate private slot); if there is none, one "other" source.
+func (a *slotAnalyzer) chainSources(fn *ssa.Function, steps []pathStep, pos token.Pos, suffix string) []slotSrc {
+	firstOther := ""
+	nIdx := 0
+	for i := len(steps) - 1; i >= 0; i-- {
+		ia, ok := steps[i].Val.(*ssa.IndexAddr)
+		if !ok {
+			continue
+		}
+		nIdx++
+		params, fvs, other := slotIndexLeaves(ia.Index, fn)
+		if other != "" {
+			if firstOther == "" {
+				firstOther = other
+			}
+			continue
+		}
+		if len(params) == 0 && len(fvs) == 0 {
+			if firstOther == "" {
+				firstOther = "a constant or loop counter"
+			}
+			continue
+		}
+		var out []slotSrc
+		for pi := range params {
+			out = append(out, slotSrc{pi, "", pos})
+		}
+		for _, fv := range fvs {
+			out = append(out, slotSrc{-1, "fv:" + fv.Name(), pos})
+		}
+		return out
+	}
+	if nIdx == 0 {
+		return []slotSrc{{-1, "no element selection at all: a field of the shared object itself" + suffix, pos}}
+	}
+	return []slotSrc{{-1, firstOther + suffix, pos}}
 }
 
 // goSlots runs the rule; name/doc let several properties register the same analysis.
@@ -308,7 +393,36 @@ func goroutinePrivateSlots(p *Prog, name string) *RuleResult {
 				sh = append(sh, shared{"captured " + fv.Name(), loads})
 			}
 		}
+		// captured pointers to shared objects (the linker context `c`, the scanner `s`, ...)
+		if mc, ok := g.in.Call.Value.(*ssa.MakeClosure); ok {
+			for i, fv := range g.callee.FreeVars {
+				pt, ok := fv.Type().Underlying().(*types.Pointer)
+				if !ok {
+					continue
+				}
+				if _, isPtr := pt.Elem().Underlying().(*types.Pointer); !isPtr {
+					continue
+				}
+				if i < len(mc.Bindings) && definedInLoop(mc.Bindings[i]) {
+					continue
+				}
+				var loads []ssa.Value
+				if fv.Referrers() != nil {
+					for _, rf := range *fv.Referrers() {
+						if u, ok := rf.(*ssa.UnOp); ok && u.Op == token.MUL {
+							loads = append(loads, u)
+						}
+					}
+				}
+				sh = append(sh, shared{"captured object " + fv.Name(), loads})
+			}
+		}
 		for i, arg := range g.in.Call.Args {
+			if i < len(g.callee.Params) && !definedInLoop(arg) {
+				if _, isPtr := arg.Type().Underlying().(*types.Pointer); isPtr {
+					sh = append(sh, shared{"object " + g.callee.Params[i].Name(), []ssa.Value{g.callee.Params[i]}})
+				}
+			}
 			if _, isSlice := arg.Type().Underlying().(*types.Slice); !isSlice || i >= len(g.callee.Params) {
 				continue
 			}
@@ -428,7 +542,10 @@ func goroutinePrivateSlots(p *Prog, name string) *RuleResult {
 	return r
 }
 
-var goSlotExceptions = ExcTable{}
+var goSlotExceptions = ExcTable{
+	"linker.(*linkerContext).computeCrossChunkDependencies$1 captured object c":   "one goroutine per chunk; it rewrites import records of the files in chunk.filesWithPartsInChunk, and a JS file is a member of exactly one chunk (decided by C10/R1 single-membership), so no two instances touch the same file",
+	"renamer.(*NumberRenamer).AssignNamesByScope$1 captured object r":              "one goroutine per source index; it names the symbols of that file's nested scopes into r.names[ref.SourceIndex][...], and every symbol declared in a file's scopes carries that file's source index, so the outer index is the goroutine's own",
+}
 
 // blockInLoop: b lies on a CFG cycle.
 func blockInLoop(start *ssa.BasicBlock) bool {
